@@ -58,7 +58,7 @@ pub fn generate(thorough: bool, seed: u64, em: &mut Emitter) {
     super::small::generate_verify(if thorough { 4 } else { 3 }, if thorough { 3 } else { 3 }, seed, em);
     // a digest embedded twice, one copy inside another disclosure's value, its disclosure listed twice: never accepted
     super::c12::generate_nested_dups(thorough, seed, em);
-    super::c08::generate_large_verify(seed ^ 3, if thorough { 40 } else { 8 }, em);
+    super::c08::generate_large_verify(seed ^ 3, if thorough { 45 } else { 9 }, em);
     let mut r = Rng::new(seed ^ 0xC03);
     let n = if thorough { 80_000 } else { 4_000 };
     for i in 0..n {
